@@ -524,11 +524,15 @@ func (s *c08Run) runJob(typ string, arm func()) c08Outcome {
 	return o
 }
 
-// runOverlap: run A of the job is held inside batch Fault.Hit (HTTP sink: the
-// remote end does not answer that request yet; dataset sink: at the hook right
-// after that batch's sink write, before its token is stored) and killed there;
-// the job is started again at once (run B, fresh objects like RunJob); then A
-// is let go and winds down. Event-driven, no sleeping. Judged here:
+// runOverlap: run A of the job is held while the sink write of batch Fault.Hit
+// is in flight (HTTP sink: the remote end holds that request before storing
+// anything; dataset sink: A waits in front of the sink dataset's write lock,
+// LockWait hook of StoreEntities - a slow / contended write) and killed there;
+// the job is started again at once through Scheduler.RunJob (run B; refused or
+// accepted, both are outcomes); the monitor waits for the end of B, lets A go
+// and waits for the end of A, so that no run of the id is left. Waiting is on
+// events (channels, the recorded job result); nothing is decided by time.
+// Judged here:
 //   - B must not have written to the sink while A was still in progress
 //     (at most one run of a job id writes to the sink at any time);
 //   - the persisted token must not go backwards when A finally finishes.
@@ -542,17 +546,9 @@ func (s *c08Run) runOverlap(typ string) (o c08Outcome, fired bool, ok bool) {
 		o.Err = "harness: " + err.Error()
 		return o, false, true
 	}
-	var jobB *jobs.VerifC08Job
-	if js, err := s.env.sched.VerifC08Jobs(s.jc); err == nil {
-		for _, j := range js {
-			if j.IsFullSync() == (typ == "full") {
-				jobB = j
-			}
-		}
-	}
-	if jobB == nil {
-		o.Err = "harness: no second job object"
-		return o, false, true
+	typB := f.Recover
+	if typB == "" {
+		typB = typ
 	}
 	vh.Clear("")
 	vh.ResetHits()
@@ -564,10 +560,22 @@ func (s *c08Run) runOverlap(typ string) (o c08Outcome, fired bool, ok bool) {
 		l.blockAt, l.reached, l.release = f.Hit, reached, release
 		l.mu.Unlock()
 	} else {
-		vh.OnPoint(f.Point, int64(f.Hit), func(string, int64) {
-			close(reached)
-			<-release
+		var mu sync.Mutex
+		waits := 0
+		vh.SetLockTracer(func(kind, name string, _ int64) {
+			if kind != "lockwait" || name != "ds:"+c08SinkDS {
+				return
+			}
+			mu.Lock()
+			waits++
+			hold := waits == f.Hit
+			mu.Unlock()
+			if hold {
+				close(reached)
+				<-release
+			}
 		})
+		defer vh.SetLockTracer(nil)
 	}
 	doneA := make(chan struct{})
 	go func() {
@@ -618,8 +626,34 @@ func (s *c08Run) runOverlap(typ string) (o c08Outcome, fired bool, ok bool) {
 	l.mu.Lock()
 	accBefore := l.accepted
 	l.mu.Unlock()
-	// run B: started right after the kill, while A is still inside its batch
-	pB, hungB := c08RunWatched(jobB, func() { s.env.sched.KillJob(c08JobID) })
+	// run B: requested right after the kill, while the sink write of A's batch is still in flight
+	pB, hungB := "", ""
+	t0 := time.Now()
+	jt := jobs.JobTypeIncremental
+	if typB == "full" {
+		jt = jobs.JobTypeFull
+	}
+	if _, errB := s.env.sched.RunJob(c08JobID, jt); errB != nil {
+		s.ctx.Out.Stat("overlap_restart_refused", 1)
+	} else {
+		// accepted: RunJob starts the run on the job runner's goroutine; its end = the job result it records
+		s.ctx.Out.Stat("overlap_restart_accepted", 1)
+		deadline := time.Now().Add(c08RunWatchdog)
+		for ended := false; !ended; {
+			for _, h := range s.env.sched.GetJobHistory() {
+				if h.ID == c08JobID && !h.Start.Before(t0) && !h.End.IsZero() {
+					ended = true
+				}
+			}
+			if !ended {
+				if time.Now().After(deadline) {
+					hungB = "no result recorded"
+					break
+				}
+				time.Sleep(2 * time.Millisecond)
+			}
+		}
+	}
 	s.ctx.Out.Stat("overlap_restarts", 1)
 	hitsAfter := vh.Hits()
 	l.mu.Lock()
@@ -652,13 +686,16 @@ func (s *c08Run) runOverlap(typ string) (o c08Outcome, fired bool, ok bool) {
 		s.viol("two-runs-of-job-write-sink-concurrently/"+typ,
 			fmt.Sprintf("the job was killed while inside batch %d and started again at once: the second run delivered %d batch(es) to the sink while the killed run was still in progress (token before the kill %q, after the second run %q, after the killed run ended %q)",
 				f.Hit, hitsAfter[c08PIncrS]+hitsAfter[c08PFullS]-hitsBefore[c08PIncrS]-hitsBefore[c08PFullS], tok0raw, tok1raw, tok2raw), 0, 1)
-		return o, true, false
+		// not the end of the case: the usual protocol (token-vs-sink, recovery run, equality) still runs, so that the
+		// consequence - a stale version written over a newer one - is reported under its own class as well
+		s.abort = false
 	}
-	if typ == "incr" && ok0 && ok1 && ok2 {
+	if typ == "incr" && typB == "incr" && ok0 && ok1 && ok2 {
 		for i := range tok2 {
 			if tok2[i] < tok1[i] || tok1[i] < tok0[i] {
 				s.viol("token-went-backwards/"+s.faultClass(), "the persisted token of an incremental job went backwards", []string{tok0raw, tok1raw}, tok2raw)
-				return o, true, false
+				s.abort = false // go on to the recovery run and the equality check
+				break
 			}
 		}
 	}
@@ -1641,11 +1678,9 @@ func c08Faults(sc C08Sched, i int, m *c08RunMeasure) []c08Cand {
 			add("sink400", "", k, k >= 2 && k <= B)
 		}
 	}
-	if m.Type == "incr" {
-		// the run is killed while it is inside batch k and the job is started again at once
-		for k := 1; k <= B; k++ {
-			out = append(out, c08Cand{f: C08Fault{Kind: "overlap", Step: i, Point: pS, Hit: k, Recover: "incr", Batches: B, Requests: m.Requests}, nt: k < B})
-		}
+	// the run is killed while the sink write of batch k is in flight and the job is started again at once (RunJob)
+	for k := 1; k <= B; k++ {
+		add("overlap", pS, k, k < B)
 	}
 	return out
 }
@@ -1726,7 +1761,8 @@ func c08Jobs(ctx *Ctx) error {
 					f := C08Fault{Kind: kind, Step: i, Point: point, Hit: hit, Recover: "incr", Batches: B, Requests: m.Requests}
 					return c08Cand{f: f, nt: c08Nontrivial(f)}
 				}
-				cands = append(cands, mk("crash", c08PFullS, 1), mk("kill", c08PFullS, 1), mk("crash", c08PFullS, 1+fr.Intn(B)), mk("kill", c08PFullE, 1))
+				cands = append(cands, mk("crash", c08PFullS, 1), mk("kill", c08PFullS, 1), mk("crash", c08PFullS, 1+fr.Intn(B)), mk("kill", c08PFullE, 1),
+					mk("overlap", c08PFullS, 1), mk("overlap", c08PFullS, 1+fr.Intn(B)))
 				if sc.Sink == "http" {
 					cands = append(cands, mk("sink400", "", 2))
 				}
